@@ -19,13 +19,30 @@ pub uninterp spec fn grad_of(model: int, x: Seq<real>) -> Seq<real>;
 /// A-lowrank: `(I + U (diag(vals) - I) U^T) rhs` (cpu_math.rs:332-425) -- UNINTERPRETED: no matrix algebra in this unit
 pub uninterp spec fn lowrank_s(vecs: Seq<Seq<real>>, vals: Seq<real>, rhs: Seq<real>) -> Seq<real>;
 
-/// ghost identity of a Math value: dimension and which density it holds (same text as unit leapfrog)
+// ---- VERBATIM copy of units/leapfrog/prelude.rs (MathView, no_eval, one_eval_err, one_eval, msame, mkeep) ----
+/// ghost identity of a Math value: dimension and which density it holds (split off to avoid a trait cycle)
 pub trait MathView: Sized {
     spec fn dim_spec(&self) -> nat;
     spec fn model(&self) -> int;
+    /// ghost history of density evaluations (same text as dyn_facade.rs): total, and those ending in an unrecoverable error
+    spec fn evals(&self) -> nat;
+    spec fn fatal_evals(&self) -> nat;
+}
+/// a `&mut math` call that does not evaluate the density
+pub open spec fn no_eval<M: MathView>(m0: &M, m1: &M) -> bool { m1.evals() == m0.evals() && m1.fatal_evals() == m0.fatal_evals() }
+/// exactly one density evaluation; if it failed unrecoverably the call returned Err (quantifier-free form of
+/// "exists fatal. one_eval(m0, m1, fatal) && (fatal ==> is_err)")
+pub open spec fn one_eval_err<M: MathView>(m0: &M, m1: &M, is_err: bool) -> bool {
+    m1.evals() == m0.evals() + 1 && (m1.fatal_evals() == m0.fatal_evals() || (m1.fatal_evals() == m0.fatal_evals() + 1 && is_err))
+}
+/// a `&mut math` call that evaluates the density exactly once; `fatal`: it ended in an unrecoverable error
+pub open spec fn one_eval<M: MathView>(m0: &M, m1: &M, fatal: bool) -> bool {
+    m1.evals() == m0.evals() + 1 && m1.fatal_evals() == m0.fatal_evals() + (if fatal { 1nat } else { 0nat })
 }
 /// a `&mut math` call neither changes the dimension nor the density held by `math`
-pub open spec fn msame<M: MathView>(a: &M, b: &M) -> bool { a.dim_spec() == b.dim_spec() && a.model() == b.model() }
+pub open spec fn msame<M: MathView>(a: &M, b: &M) -> bool { a.dim_spec() == b.dim_spec() && a.model() == b.model() && no_eval(b, a) }
+/// same dimension and density, but the call may have evaluated the density
+pub open spec fn mkeep<M: MathView>(a: &M, b: &M) -> bool { a.dim_spec() == b.dim_spec() && a.model() == b.model() }
 
 pub trait Math: MathView {
     type Vector;
@@ -34,8 +51,8 @@ pub trait Math: MathView {
     type EigValues;
     spec fn vv(v: &Self::Vector) -> Seq<real>;
     /// mathematical content of the eigenvector matrix (columns) / of a vector of eigenvalue-like scalings
-    spec fn evecs(v: &Self::EigVectors) -> Seq<Seq<real>>;
-    spec fn evals(v: &Self::EigValues) -> Seq<real>;
+    spec fn eigvecs_v(v: &Self::EigVectors) -> Seq<Seq<real>>;
+    spec fn eigvals_v(v: &Self::EigValues) -> Seq<real>;
 
     // ---- same text as units/leapfrog/prelude.rs (new_array strengthened: cpu_math.rs:94-96 `Col::zeros(self.dim())`)
     fn new_array(&mut self) -> (r: Self::Vector)
@@ -51,7 +68,7 @@ pub trait Math: MathView {
         ensures msame(final(self), old(self)), Self::vv(final(y)) == axpy_s(Self::vv(x), Self::vv(old(y)), a.r());
     /// the user's density: Ok(value) with the gradient written, or an error (recoverable or not)
     fn logp_array(&mut self, position: &Self::Vector, gradient: &mut Self::Vector) -> (r: Result<F, Self::LogpErr>)
-        ensures msame(final(self), old(self)),
+        ensures mkeep(final(self), old(self)), one_eval(old(self), final(self), r is Err && !r->Err_0.recoverable()),
                 r is Ok ==> r->Ok_0.r() == logp_of(old(self).model(), Self::vv(position))
                             && Self::vv(final(gradient)) == grad_of(old(self).model(), Self::vv(position));
 
@@ -102,12 +119,13 @@ pub trait Math: MathView {
 
     // ---- low-rank kernel (A-lowrank): cpu_math.rs:332-379 / 381-425, dest = rhs + U (diag(vals) - I) U^T rhs
     fn apply_lowrank_transform(&mut self, vecs: &Self::EigVectors, vals: &Self::EigValues, rhs: &Self::Vector, dest: &mut Self::Vector)
-        ensures msame(final(self), old(self)), Self::vv(final(dest)) == lowrank_s(Self::evecs(vecs), Self::evals(vals), Self::vv(rhs));
+        ensures msame(final(self), old(self)), Self::vv(final(dest)) == lowrank_s(Self::eigvecs_v(vecs), Self::eigvals_v(vals), Self::vv(rhs));
     fn apply_lowrank_transform_inplace(&mut self, vecs: &Self::EigVectors, vals: &Self::EigValues, rhs_and_dest: &mut Self::Vector)
-        ensures msame(final(self), old(self)), Self::vv(final(rhs_and_dest)) == lowrank_s(Self::evecs(vecs), Self::evals(vals), Self::vv(old(rhs_and_dest)));
+        ensures msame(final(self), old(self)), Self::vv(final(rhs_and_dest)) == lowrank_s(Self::eigvecs_v(vecs), Self::eigvals_v(vals), Self::vv(old(rhs_and_dest)));
 }
 
-// ---- VERBATIM copy of units/leapfrog/prelude.rs lines 123-165 (TransView + trait Transformation) ----
+// ---- VERBATIM copy of units/leapfrog/prelude.rs (TransView + trait Transformation) ----
+// check:  diff <(sed -n '/^pub struct TransView/,/^    fn transformation_id/p' units/leapfrog/prelude.rs) <(sed -n '/^pub struct TransView/,/^    fn transformation_id/p' units/transform/prelude.rs)
 /// ghost view of a transformation: version counter and the parameters it applies (as in unit adapt)
 pub struct TransView { pub id: int, pub params: Seq<real> }
 pub trait Transformation<M: Math>: Sized {
@@ -120,7 +138,7 @@ pub trait Transformation<M: Math>: Sized {
 
     fn init_from_untransformed_position(&self, math: &mut M, untransformed_position: &M::Vector, untransformed_gradient: &mut M::Vector,
         transformed_position: &mut M::Vector, transformed_gradient: &mut M::Vector) -> (r: Result<(F, F), M::LogpErr>)
-        ensures msame(final(math), old(math)),
+        ensures mkeep(final(math), old(math)), one_eval(old(math), final(math), r is Err && !r->Err_0.recoverable()),
             r is Ok ==> {
                 let x = M::vv(untransformed_position);
                 &&& M::vv(final(untransformed_gradient)) == grad_of(old(math).model(), x)
@@ -131,7 +149,7 @@ pub trait Transformation<M: Math>: Sized {
             };
     fn init_from_transformed_position(&self, math: &mut M, untransformed_position: &mut M::Vector, untransformed_gradient: &mut M::Vector,
         transformed_position: &M::Vector, transformed_gradient: &mut M::Vector) -> (r: Result<(F, F), M::LogpErr>)
-        ensures msame(final(math), old(math)),
+        ensures mkeep(final(math), old(math)), one_eval(old(math), final(math), r is Err && !r->Err_0.recoverable()),
             r is Ok ==> {
                 let x = self.inv(M::vv(transformed_position));
                 &&& M::vv(final(untransformed_position)) == x
@@ -188,9 +206,9 @@ impl<M: Math> InnerMatrix<M> {
     #[verifier::external_body]
     pub fn new(math: &mut M, vals: Col<F>, vecs: Mat<F>, mu: Col<F>) -> (r: Self)
         ensures msame(final(math), old(math)),
-            M::evecs(&r.vecs) == vecs.g@,
-            M::evals(&r.vals_sqrt) == sqrt_s(vals.g@),
-            M::evals(&r.vals_sqrt_inv) == recip_s(sqrt_s(vals.g@)),
+            M::eigvecs_v(&r.vecs) == vecs.g@,
+            M::eigvals_v(&r.vals_sqrt) == sqrt_s(vals.g@),
+            M::eigvals_v(&r.vals_sqrt_inv) == recip_s(sqrt_s(vals.g@)),
             r.logdet_contribution.r() == -(sum_ln(vals.g@) / 2real),
             M::vv(&r.mu) == mu.g@,
             r.num_eigenvalues as nat == vals.g@.len(),
